@@ -2,16 +2,17 @@
 //!
 //! Case kinds (one line each):
 //!   `eng=file|S;S;...`    every `S` is one `save_hard_state` on a FileMetaStore in a temp dir. The guarded hook
-//!                         `verif_crashpoint` (between File::create / write_all / flush of `save_to_file`) images the
-//!                         real file at every crash point; every image (plus every torn prefix of the written bytes
-//!                         and the "file absent" image) is loaded with the REAL `FileMetaStore::new` +
-//!                         `load_hard_state`.
+//!                         `verif_crashpoint` (between create / write_all / flush / sync_all of the temp file, the
+//!                         rename and the directory fsync of `save_to_file`) images the real directory
+//!                         (hard_state.bin and hard_state.bin.tmp) at every crash point; every image (plus every torn
+//!                         prefix of the temp file and the "file absent" image) is loaded with the REAL
+//!                         `FileMetaStore::new` + `load_hard_state`.
 //!   `eng=rocks|S;S;...`   same on the RocksDB meta store: process-crash image = copy of the live DB directory taken
 //!                         without drop/flush; torn image = that copy with the tail of the newest WAL file cut.
 //!   `eng=dec|<hex>`       arbitrary bytes as `hard_state.bin`, loaded through the real load path (decoder model).
 //!   `eng=strace|S;S`      re-executes this binary under strace on `eng=file|S;S` and prints the canonical sequence
-//!                         of system calls that touched `hard_state.bin` (checks the modelled op sequence, in
-//!                         particular: O_TRUNC on open, no fsync/fdatasync, no rename).
+//!                         of system calls on the store's directory (checks the modelled op sequence: temp file
+//!                         opened with O_TRUNC, written, fsync'ed, renamed over hard_state.bin, directory fsync'ed).
 //!   `S` = `<term>/-` | `<term>/<id>/<vterm>/<0|1>`.
 use std::cell::RefCell;
 use std::path::{Path, PathBuf};
@@ -51,15 +52,16 @@ fn show_hs(h: &Option<HardState>) -> String {
     }
 }
 
-/// Load an image (None = file absent) with the real FileMetaStore constructor + load_hard_state.
-fn real_file_load(img: Option<&[u8]>) -> String {
+/// Load a directory image (main = hard_state.bin, tmp = hard_state.bin.tmp; None = absent) with the real
+/// FileMetaStore constructor + load_hard_state.
+fn real_dir_load(main: Option<&[u8]>, tmp: Option<&[u8]>) -> String {
     // one scratch directory per process, reset for every image (each load is a fresh FileMetaStore::new)
     thread_local! { static DIR: tempfile::TempDir = tempfile::tempdir_in(TMP).unwrap(); }
     let dir: PathBuf = DIR.with(|d| d.path().to_path_buf());
-    let f = dir.join("hard_state.bin");
-    let _ = std::fs::remove_file(&f);
-    if let Some(b) = img {
-        std::fs::write(&f, b).unwrap();
+    for (name, img) in [("hard_state.bin", main), ("hard_state.bin.tmp", tmp)] {
+        let f = dir.join(name);
+        let _ = std::fs::remove_file(&f);
+        if let Some(b) = img { std::fs::write(&f, b).unwrap(); }
     }
     match FileMetaStore::new(dir) {
         Err(_) => "open-err".into(),
@@ -69,6 +71,7 @@ fn real_file_load(img: Option<&[u8]>) -> String {
         },
     }
 }
+fn real_file_load(img: Option<&[u8]>) -> String { real_dir_load(img, None) }
 
 fn rle(xs: &[String]) -> String {
     if xs.is_empty() { return "-".into(); }
@@ -83,38 +86,40 @@ fn rle(xs: &[String]) -> String {
     out.join("+")
 }
 
+fn flen(b: &Option<Vec<u8>>) -> i64 { b.as_ref().map(|b| b.len() as i64).unwrap_or(-1) }
+
 fn exec_file(ops: &str) -> String {
     let d = tempfile::tempdir_in(TMP).unwrap();
     let dir = d.path().to_path_buf();
     let store = match FileMetaStore::new(dir.clone()) { Ok(s) => s, Err(_) => return "open-err".into() };
-    let file = dir.join("hard_state.bin");
+    let (file, tmpf) = (dir.join("hard_state.bin"), dir.join("hard_state.bin.tmp"));
     let mut outs = vec![format!("absent:{}", real_file_load(None)), format!("init:{}", show_hs(&store.load_hard_state().ok().flatten()))];
     for s in ops.split(';').filter(|s| !s.is_empty()) {
         let Some(hs) = parse_hs(s) else { return "bad-case".into() };
-        // crash-point images, taken from the real file at the real points
-        let images: Rc<RefCell<Vec<(String, Option<Vec<u8>>)>>> = Rc::new(RefCell::new(vec![]));
-        let im2 = images.clone();
-        let f2 = file.clone();
+        let before = std::fs::read(&file).ok();
+        // crash-point images of the directory, taken at the real points
+        type Img = (String, Option<Vec<u8>>, Option<Vec<u8>>);
+        let images: Rc<RefCell<Vec<Img>>> = Rc::new(RefCell::new(vec![]));
+        let (im2, f2, t2) = (images.clone(), file.clone(), tmpf.clone());
         verif_crashpoint::set(Some(Box::new(move |name: &'static str| {
-            im2.borrow_mut().push((name.to_string(), std::fs::read(&f2).ok()));
+            im2.borrow_mut().push((name.to_string(), std::fs::read(&f2).ok(), std::fs::read(&t2).ok()));
         })));
         let r = store.save_hard_state(&hs);
         verif_crashpoint::set(None);
         if r.is_err() { outs.push("save-err".into()); continue; }
         let mut parts = vec![];
         let mut written: Vec<u8> = vec![];
-        for (name, img) in images.borrow().iter() {
+        for (name, main, tmp) in images.borrow().iter() {
             let short = name.strip_prefix("meta:").unwrap_or(name);
-            let len = img.as_ref().map(|b| b.len() as i64).unwrap_or(-1);
-            parts.push(format!("{}:{}:{}", short, len, real_file_load(img.as_deref())));
-            if short == "written" { written = img.clone().unwrap_or_default(); }
+            parts.push(format!("{}:{}/{}:{}", short, flen(main), flen(tmp), real_dir_load(main.as_deref(), tmp.as_deref())));
+            if short == "written" { written = tmp.clone().unwrap_or_default(); }
         }
         // image after return (process crash after save returned) and the live answer
-        let after = std::fs::read(&file).ok();
-        parts.push(format!("ret:{}", real_file_load(after.as_deref())));
+        let (after, after_tmp) = (std::fs::read(&file).ok(), std::fs::read(&tmpf).ok());
+        parts.push(format!("ret:{}/{}:{}", flen(&after), flen(&after_tmp), real_dir_load(after.as_deref(), after_tmp.as_deref())));
         parts.push(format!("live:{}", show_hs(&store.load_hard_state().ok().flatten())));
-        // torn write: every proper prefix of the bytes the real code wrote
-        let torn: Vec<String> = (0..written.len()).map(|j| real_file_load(Some(&written[..j]))).collect();
+        // torn write of the temp file: hard_state.bin as before the save + every proper prefix of the bytes written
+        let torn: Vec<String> = (0..written.len()).map(|j| real_dir_load(before.as_deref(), Some(&written[..j]))).collect();
         parts.push(format!("torn:{}", rle(&torn)));
         parts.push(format!("bytes:{}", hex(&written)));
         outs.push(parts.join(","));
@@ -194,6 +199,7 @@ fn exec_strace(ops: &str) -> String {
     let mut child = match std::process::Command::new("strace")
         .args(["-f", "-y", "-e", "trace=openat,write,pwrite64,writev,ftruncate,truncate,fsync,fdatasync,sync_file_range,rename,renameat,renameat2,unlink,unlinkat", "-o"])
         .arg(&tr).arg(&exe).arg("run")
+        .env("DV_STRACED_DIR", d.path())   // the child works (and leaves its files) inside this temp dir
         .stdin(std::process::Stdio::piped()).stdout(std::process::Stdio::null()).stderr(std::process::Stdio::null())
         .spawn() { Ok(c) => c, Err(_) => return "strace-unavailable".into() };
     {
@@ -203,25 +209,47 @@ fn exec_strace(ops: &str) -> String {
     }
     let _ = child.wait();
     let text = std::fs::read_to_string(&tr).unwrap_or_default();
+    // which object of the store's directory a path names
+    fn obj(path: &str) -> &'static str {
+        if path.ends_with("hard_state.bin.tmp") { "tmp" } else if path.ends_with("hard_state.bin") { "main" }
+        else if path.ends_with("straced-live") { "dir" } else { "other" }
+    }
+    fn paths(l: &str) -> Vec<String> {
+        // quoted path arguments and `fd</path>` annotations (strace -y)
+        let mut out = vec![];
+        let b = l.as_bytes();
+        let mut i = 0;
+        while i < b.len() {
+            let close = match b[i] { b'"' => b'"', b'<' => b'>', _ => { i += 1; continue; } };
+            if let Some(j) = l[i + 1..].find(close as char) {
+                let p = &l[i + 1..i + 1 + j];
+                if p.contains("straced-live") { out.push(p.to_string()); }
+                i += j + 2;
+            } else { break; }
+        }
+        out
+    }
     let mut out = vec![];
     for l in text.lines() {
-        // only the store's own data dir (marker directory name) — not the per-image reload dirs
-        if !l.contains("straced-live/hard_state.bin") { continue; }
+        if !l.contains("straced-live") || l.contains("resumed>") { continue; }
         let l = l.splitn(2, ' ').nth(1).unwrap_or(l).trim();
         let name = l.split('(').next().unwrap_or("");
+        let ps = paths(l);
+        let first = ps.first().map(|p| obj(p)).unwrap_or("other");
         let item = match name {
             "openat" => {
                 let mut flags: Vec<&str> = vec![];
                 for f in ["O_RDONLY", "O_WRONLY", "O_RDWR", "O_CREAT", "O_TRUNC", "O_APPEND", "O_SYNC", "O_DSYNC"] {
                     if l.contains(f) { flags.push(&f[2..]); }
                 }
-                format!("open[{}]", flags.join("+").to_lowercase())
+                format!("open:{}[{}]", first, flags.join("+").to_lowercase())
             }
             "write" | "pwrite64" | "writev" => {
                 let n = l.rsplit("= ").next().unwrap_or("?").trim();
-                format!("{name}[{n}]")
+                format!("{name}:{first}[{n}]")
             }
-            other => other.to_string(),
+            "rename" | "renameat" | "renameat2" => format!("rename:{}>{}", first, ps.get(1).map(|p| obj(p)).unwrap_or("other")),
+            other => format!("{other}:{first}"),
         };
         out.push(item);
     }
@@ -230,8 +258,8 @@ fn exec_strace(ops: &str) -> String {
 
 /// Child side of `eng=strace`: the same saves on a store whose directory has a recognisable name; no image reloads.
 fn exec_straced(ops: &str) -> String {
-    let d = tempfile::tempdir_in(TMP).unwrap();
-    let dir = d.path().join("straced-live");
+    let Some(base) = std::env::var_os("DV_STRACED_DIR") else { return "bad-case".into() };
+    let dir = PathBuf::from(base).join("straced-live");
     let store = match FileMetaStore::new(dir) { Ok(s) => s, Err(_) => return "open-err".into() };
     for s in ops.split(';').filter(|s| !s.is_empty()) {
         if let Some(hs) = parse_hs(s) { let _ = store.save_hard_state(&hs); }
